@@ -1,5 +1,6 @@
 import MetapypeModel.Lemmas.NsFrame
 import MetapypeModel.Lemmas.NsVisible
+import MetapypeModel.Lemmas.NsFix
 /-
   C13 — namespace operations stay inside the subtree they are applied to.
   Stated on the heap model with shared dict cells (Model/NsHeap.lean), for EVERY heap — arbitrary
@@ -112,6 +113,7 @@ theorem C13_refs_step (fuel : Nat) (H : NsHeap) (hr : RefsOK H) (op : NsOp) : Re
     have h1 : RefsOK (H.alloc d).1 := fun m => by simp only [NsHeap.alloc, NsHeap.setCell]; exact Nat.lt_succ_of_lt (hr m)
     exact (setNsSub_refs _ fuel _ n (by simp [NsHeap.alloc, NsHeap.setCell]) h1).1
   | share n m => exact (setNsSub_refs _ fuel H n (hr m) hr).1
+  | fix n => exact (fixNs_pframed fuel H n none none (fun r h => by cases h)).refs hr
 
 /-- … hence along every history, so the isolation theorems above apply after any sequence of operations,
     whatever sharing of dict objects that sequence has produced -/
@@ -244,5 +246,42 @@ example :
     let H0 : NsHeap := { kids := fun a => if a = 0 then [1, 2] else [], ns := fun _ => 0, cell := fun _ => [("a", "u1")], next := 1 }
     ReachIn H0.kids 2 0 2 ∧ RefsOK H0 := by
   refine ⟨.step (c := 2) (by decide) (.refl 0 2), fun m => by simp⟩
+
+/-! ### the bulk repair helper `Node.fix_nsmap` -/
+
+/-- `fix_nsmap(n)` for every heap and every recursion budget: the child lists are untouched and every node outside the
+    subtree of `n` keeps the very dict object it held (pointer-level frame).  This is the part of the isolation clause
+    that holds of the helper unconditionally; `_partial` because the helper also writes *in place* into dict objects
+    that strict descendants already hold (`node.nsmap[prefix] = nsmap[prefix]`), so the bindings *seen* outside are
+    unchanged only when no such object is shared across the subtree boundary - see `C13_fix_leak_witness`. -/
+theorem C13_fix_frame_partial (fuel : Nat) (H : NsHeap) (n : Nat) :
+    (fixNs fuel H n none none).kids = H.kids ∧
+    (∀ m, ¬ Reach H.kids n m → (fixNs fuel H n none none).ns m = H.ns m) ∧
+    H.next ≤ (fixNs fuel H n none none).next :=
+  have h := fixNs_pframed fuel H n none none (fun r h => by cases h)
+  ⟨h.kids_eq, h.outside, h.next_le⟩
+
+/-- the recursion budget exhausted, or a node without children: `fix_nsmap` at the entry call does nothing at all
+    (the node's own map is only ever rewritten from its parent's) -/
+theorem C13_fix_leaf (fuel : Nat) (H : NsHeap) (n : Nat) (hk : H.kids n = []) : fixNs fuel H n none none = H := by
+  cases fuel with
+  | zero => rfl
+  | succ f => simp only [fixNs, hk, List.foldl_nil]
+
+/-- a four-node heap: 0 → 1 → 2 is a chain, 3 is unrelated; node 2 and node 3 hold the SAME dict object (cell 2, `a ↦ u1`,
+    as `set_nsmap` with one object on two nodes leaves it), node 1 binds `a ↦ u2` -/
+def fixLeakHeap : NsHeap :=
+  { kids := fun a => if a = 0 then [1] else if a = 1 then [2] else [],
+    ns := fun a => if a = 3 then 2 else a,
+    cell := fun r => if r = 1 then [("a", "u2")] else if r = 2 then [("a", "u1")] else [],
+    next := 4 }
+
+/-- the cell-level isolation clause is FALSE of `fix_nsmap` when a dict object is shared across the subtree boundary:
+    `fix_nsmap(node 0)` rewrites `a` in place in the object node 2 holds, and the unrelated node 3 sees it.  The same
+    history is replayed on the implementation by the correspondence of every run (ops `share` then `fix`), which is
+    why the oracle judges outside nodes only when they share no dict object with a strict descendant. -/
+theorem C13_fix_leak_witness :
+    fixLeakHeap.nsmapOf 3 = [("a", "u1")] ∧ (fixNs 5 fixLeakHeap 0 none none).nsmapOf 3 = [("a", "u2")] := by
+  decide
 
 end Metapype
